@@ -297,6 +297,10 @@ def resolve_local(f: Func, e: ast.AST, depth: int = 4) -> list[ast.AST]:
     """Expand a local Name to the expression(s) it was assigned from
     (single-assignment chains only); other expressions are returned as is."""
     e = strip_await(e)
+    if depth and isinstance(e, ast.IfExp):
+        # `a if c else b` denotes either value (as two guarded assignments)
+        return resolve_local(f, e.body, depth - 1) + \
+            resolve_local(f, e.orelse, depth - 1)
     if depth and isinstance(e, ast.Name) and e.id not in f.params():
         defs = local_assigns(f, e.id)
         vals = [v for _, v in defs if v is not None
@@ -357,6 +361,27 @@ def guard_atoms(test: ast.AST) -> list[tuple[str, bool]]:
             out.append((txt(e), pol))
     go(test, True)
     return out
+
+
+def runs_only_when(cfg, n, atom: str, value: bool) -> bool:
+    """Node n is control-dependent on a test that fixes ``atom`` (text as
+    produced by guard_atoms) to ``value``: a conjunct on the true edge, or a
+    conjunct of the negation on the false edge -- so `if not x: return` and
+    `if x: ... else: return` are the same fact about the return."""
+    for t in cfg.nodes:
+        if t.kind != 'test':
+            continue
+        test = getattr(t.stmt, 'test', None)
+        if test is None:
+            continue
+        for a, pol in guard_atoms(test):
+            if a == atom and pol == value and cfg.controlled_by(n, t, 't'):
+                return True
+        neg = guard_atoms(ast.UnaryOp(ast.Not(), test))
+        for a, pol in neg:
+            if a == atom and pol == value and cfg.controlled_by(n, t, 'f'):
+                return True
+    return False
 
 
 def parents_map(root: ast.AST) -> dict[int, ast.AST]:
